@@ -8,7 +8,7 @@ import copy, random, itertools
 from ..common import CaseResult, Naming, N_SCHEMES, stable_hash, gauss, rat, close, call, exc_sig, ensure_repo_import
 from ..netbuild import build_network, UNITS
 from .c16 import items
-from . import c01, c02
+from . import c01, c02, c10, c12
 
 ensure_repo_import()
 from CircuitCalculator.Network.NodalAnalysis import node_analysis as na  # noqa: E402
@@ -20,12 +20,14 @@ RULE = ('base scenarios = reachable well-posed networks of MC_C03 and circuits o
 
 def models(tier, seed):
     if tier == 'quick':
-        return [dict(module='MC_C03.tla', cfg='MC_C03_quick.cfg', batch=100), dict(module='MC_C03c.tla', cfg='MC_C03c_quick.cfg', batch=100)]
-    return [dict(module='MC_C03.tla', cfg='MC_C03_thorough.cfg', batch=100), dict(module='MC_C03c.tla', cfg='MC_C03c_thorough.cfg', batch=100)]
+        return [dict(module='MC_C03.tla', cfg='MC_C03_quick.cfg', batch=100), dict(module='MC_C03c.tla', cfg='MC_C03c_quick.cfg', batch=100),
+                dict(module='MC_C12.tla', cfg='MC_C03_dyn.cfg', batch=20)]
+    return [dict(module='MC_C03.tla', cfg='MC_C03_thorough.cfg', batch=100), dict(module='MC_C03c.tla', cfg='MC_C03c_thorough.cfg', batch=100),
+            dict(module='MC_C12.tla', cfg='MC_C12_quick.cfg', batch=20)]
 
 
 def required_tags(tier):
-    return ['network', 'circuit', 'permuted', 'reversed', 'ref_switched', 'renamed', 'port', 'reversed_source', 'ground_moved']
+    return ['network', 'circuit', 'permuted', 'reversed', 'ref_switched', 'renamed', 'port', 'reversed_source', 'ground_moved', 'dynamic']
 
 
 def neg(g):
@@ -198,7 +200,20 @@ def replay_circuit(case, ctx, r, tg):
 def replay(case, ctx):
     r = CaseResult(case_id=f'{stable_hash(case.get("br") or case.get("comps")):x}')
     tg = set()
-    if 'br' in case:
+    if 'run' in case:
+        # state-space transfer behaviour and transient waveforms under renamings that interleave sources, inductors and passive elements:
+        # the exact closed-form response (MC_C12) is the common reference for every naming
+        tg.add('dynamic')
+        h = stable_hash(case['comps'])
+        rng = random.Random(ctx.get('seed', 0) * 97 + h)
+        schemes = sorted({rng.randrange(1, N_SCHEMES) for _ in range(2)})
+        rr = c12.replay(dict(case, schemes=[(sc,) for sc in schemes]), dict(ctx, tier='quick'))
+        r.observations += rr.observations
+        for m in rr.mismatches:
+            m['signature'] = 'transformed:' + m['signature']
+            r.mismatches.append(m)
+        tg.add('renamed')
+    elif 'br' in case:
         replay_network(case, ctx, r, tg)
     else:
         replay_circuit(case, ctx, r, tg)
